@@ -10,7 +10,7 @@ pub fn def() -> PropDef {
         builds: BOTH,
         rule: "every fragment sequence over a finite-valued menu (zero, fractional, negative, huge) up to length n x 9 line-width lists (incl. the empty list) x 3 penalty records; real wrap_first_fit and wrap_optimal_fit results checked for pointer-contiguous, non-empty, in-order, covering runs; non-trivial = a result with >= 2 lines",
         assumptions: BASE_ASSUMPTIONS,
-        floor: |t| t.pick(10_000, 100_000),
+        floor: |t| t.pick(10_000, 30_000),
         run,
     }
 }
